@@ -32,6 +32,8 @@ class LoopMixin:
                 return (e.id,)
             if isinstance(e, ast.Attribute) and isinstance(e.value, ast.Name):
                 return (e.value.id, e.attr)
+            if isinstance(e, ast.Subscript) and isinstance(e.value, ast.Name) and isinstance(e.slice, ast.Constant) and isinstance(e.slice.value, str):
+                return (e.value.id, ('key', e.slice.value))        # a list held in a record (dict with constant string keys)
             return None
 
         def store(t, ren):
@@ -83,6 +85,10 @@ class LoopMixin:
                                 p = (ren.get(p[0], None),) + p[1:] if ren else p
                                 if p[0] is not None:
                                     lists.add(p)
+                            elif not isinstance(n.func.value, (ast.Call, ast.Constant, ast.JoinedStr)):
+                                # a receiver the analysis cannot name (x.y.z.append, rows[i].append): whether it is a list that outlives the loop
+                                # is unknown, so nothing may be assumed about any list after the loop
+                                raise Unsupported(f"list mutator .{n.func.attr} through a compound receiver inside a loop")
                         recv = n.func.value
                         if isinstance(recv, ast.Name) and cls is not None:
                             base = ren.get(recv.id, None) if ren else recv.id
@@ -174,7 +180,15 @@ class LoopMixin:
             v = st.lookup(p[0])
             if v is None:
                 continue
-            if len(p) == 2:
+            if len(p) == 2 and isinstance(p[1], tuple):
+                if not isinstance(v, VRecord) or v.get(p[1][1]) is None:
+                    raise Unsupported("list mutation through a subscript of something else than a record")
+                v = v.get(p[1][1])
+                rk = kinds.get(p[0])
+                if isinstance(rk, RECORD) and f"{p[0]}[{p[1][1]}]" not in kinds:
+                    kinds = dict(kinds, **{f"{p[0]}[{p[1][1]}]": dict(rk.fields)[p[1][1]]})
+                p = (f"{p[0]}[{p[1][1]}]",)
+            elif len(p) == 2:
                 if not isinstance(v, VObj):
                     raise Unsupported("list mutation through a non-object")
                 v = self.get_field(st, v, p[1])
@@ -212,6 +226,13 @@ class LoopMixin:
                 continue
             v = st.lookup(name)
             if v is None:
+                continue
+            if isinstance(v, VRecord) and isinstance(kind, RECORD):
+                for (fname, fkind), (vname, item) in zip(kind.fields, v.items):
+                    if fname == vname and isinstance(item, VListRef) and isinstance(fkind, LIST):
+                        l = st.lists[item.lid]
+                        if l.elem is NONE and not l.arrs and z3.is_int_value(z3.simplify(l.n)) and z3.simplify(l.n).as_long() == 0:
+                            st.lists[item.lid] = self.fresh_list(fkind.elem, 'empty', n=z3.IntVal(0))
                 continue
             if isinstance(v, VListRef):
                 l = st.lists[v.lid]
